@@ -5,6 +5,16 @@ let put_zl l = put_il (List.map int_of_z l)
 let zeqb a b = int_of_z a = int_of_z b
 let ztable r = let n = integer r in List.init n (fun _ -> zl r)
 
+let feqb = fops.neqb
+let put_res_table put_row t =
+  match t with
+  | Ok t -> put_i (List.length t); List.iter put_row t
+  | Exit -> put_w "EXIT" | OOB -> put_w "OOB" | Fuel -> put_w "FUEL"
+let four_stats v =
+  put_f (arithmetic_mean fops v); put_f (variance fops v); put_f (standard_deviation fops v); put_f (median fops v)
+(* the model is a pure function: two results, and the caller's data unchanged *)
+let put_wavg (a, se) = put_i 2; put_f a; put_f se; put_i 1
+
 let handler r =
   match word r with
   | "workload" -> let w = integer r in let t = integer r in
@@ -32,6 +42,31 @@ let handler r =
   | "wavg" -> let n = integer r in
       let d = List.init n (fun _ -> let v = num r in let w = num r in (v, w)) in
       let (a, se) = weighted_average fops d in put_f a; put_f se
+  | "range1" -> let b = integer r in
+      (match range1 (z_of_int b) with Some l -> put_zl l | None -> put_w "DIVERGE")
+  | "range2" -> let a = integer r in let b = integer r in
+      (match range2 (z_of_int a) (z_of_int b) with Some l -> put_zl l | None -> put_w "DIVERGE")
+  | "lists_equal2" -> let a = ztable r in let b = ztable r in put_b (lists_equal2 zeqb a b)
+  | "transpose2" -> let a = zl r in let b = zl r in put_res_table put_zl (transpose_lists2 Z0 a b)
+  | "lists_equal_d" -> let a = list r in let b = list r in put_b (lists_equal feqb a b)
+  | "lists_equal2_d" -> let a = table r in let b = table r in put_b (lists_equal2 feqb a b)
+  | "combine_d" -> let a = list r in let b = list r in put_fl (combine_lists a b)
+  | "flatten_d" -> put_fl (flatten_list (table r))
+  | "contains_d" -> let a = list r in let x = num r in put_b (list_contains feqb a x)
+  | "find_indices_d" -> let a = list r in let x = num r in put_zl (find_indices feqb a x)
+  | "sub_list_d" -> let a = list r in let i1 = integer r in let i2 = integer r in put_fl (sub_list a (z_of_int i1) (z_of_int i2))
+  | "transpose_d" -> put_res_table put_fl (transpose_lists 0.0 (table r))
+  | "transpose2_d" -> let a = list r in let b = list r in put_res_table put_fl (transpose_lists2 0.0 a b)
+  | "median2" -> let l = list r in
+      let ((m1, m2), l2) = median_twice fops l in put_f m1; put_f m2; put_fl l2
+  | "wavg1" -> put_wavg (weighted_average_default fops (list r))
+  | "laws" -> let x = list r in let p = num r in let t = num r in let k = integer r in
+      four_stats x; four_stats (scale_data fops p x); four_stats (shift_data fops t x); four_stats (rotate_data (nat_of_int k) x)
+  | "wlaws" -> let n = integer r in
+      let d = List.init n (fun _ -> let v = num r in let w = num r in (v, w)) in
+      let p = num r in let q = num r in let k = integer r in
+      put_wavg (weighted_average fops d); put_wavg (weighted_average fops (scale_values fops p d));
+      put_wavg (weighted_average fops (scale_weights fops q d)); put_wavg (weighted_average fops (rotate_data (nat_of_int k) d))
   | o -> put_w ("MODELERR unknown_op_" ^ o)
 
 let () = run handler
